@@ -181,6 +181,15 @@ func (t *c03) udpChain(r *rand.Rand) {
 			copy(udp[8:cap(udp)], pl)
 			udp = udp.SetPayload(udp[8:8+len(pl)][:len(pl)])
 		}
+		if mode == 1 && len(pl)%3 == 0 { // every layer completed twice over the same bytes: the result must not change
+			cs["completed_twice"] = true
+			udp = udp[:8:cap(udp)].SetPayload(udp[8 : 8+len(pl)]) // UDP.SetPayload extends the header view it is called on
+			if v6 {
+				ip6.SetPayload(udp, 17)
+			} else {
+				ip4.SetPayload(udp, 17)
+			}
+		}
 		if v6 {
 			ip6 = ip6.SetPayload(udp, 17)
 			n3 = len(ip6)
@@ -867,6 +876,10 @@ func (t *c03) checksumBlock(b int64) {
 			} else {
 				copy(buf[20:], pl)
 				ip = ip.SetPayload(buf[20:20+len(pl)], proto)
+			}
+			if lo%3 == 0 { // the header is completed a second time (buffer reused, payload rewritten): same result expected
+				cs["completed_twice"] = true
+				ip = packet.IP4(buf[:20:len(buf)]).SetPayload(buf[20:20+len(pl)], proto)
 			}
 		}); pi != nil {
 			return
